@@ -1,4 +1,5 @@
 (* C07 - By default fresh mnemonics draw on the operating-system CSPRNG. *)
+From B39 Require Import Proofs.Calls.
 From B39 Require Import Lib.Base Lib.Sha256 Model.GenTypes Model.Model Model.State Spec.Bip39Spec.
 From B39 Require Import Proofs.Gates Proofs.Tables Proofs.Reader Proofs.Inventory Proofs.Source Proofs.Api.
 
@@ -30,6 +31,11 @@ Theorem C07_encoding_of_bytes : forall (n : Z) (name : string) (l : Z) (s : scri
        /\ length (bip39_indices sha256 (firstn need (delivered s))) = Z.to_nat n
   else exists e, fst (NewMnemonic n l s) = Ret ([], Some (ErrIO e)).
 Proof. exact new_mnemonic_delivers. Qed.
+
+(* the functions this property is about, and every package function they reach, call only what the model
+   accounts for (closed world of callees, computed on coq/Gen/Calls.v, regenerated from the source every run) *)
+Theorem C07_callees : reach_ok "NewMnemonicByEntropy" = true /\ reach_ok "NewMnemonic" = true /\ reach_ok "fromEntropy" = true.
+Proof. exact calls_generator. Qed.
 
 Print Assumptions C07_default_source.
 Print Assumptions C07_unswapped.
